@@ -93,11 +93,94 @@ func readFrames(seed []byte, wire []byte, max int) (out []frameRead) {
 	return out
 }
 
+// frameSealedCase reads [ordinary frame, the sealed content, ordinary frame] and checks the middle one against the oracle.
+func frameSealedCase(c *Ctx, seed []byte, sc sealedCase, headerRest []byte, pad byte) {
+	ordinary := append(mustRlp(uint64(7)), []byte("ordinary")...)
+	fs := newFrameSealer(seed)
+	fs.frame(ordinary, nil, 0)
+	fs.frame(sc.payload, headerRest, pad)
+	fs.frame(ordinary, nil, 0)
+	got := readFrames(seed, fs.buf.Bytes(), 3)
+	c.Hit("sealed-" + sc.label)
+	desc := fmt.Sprintf("family=%s frame with correct header MAC and frame MAC around a content of %d bytes [%s] (header tail %x, padding byte %#x)",
+		sc.label, len(sc.payload), hexHead(sc.payload, 40), headerRest, pad)
+	verdict := "rejected"
+	wantCode, wantRest, wf := frameOracle(sc.payload)
+	switch {
+	case len(got) < 2 || got[0].err != nil || got[0].pn != nil:
+		c.Fail("C15 frame: the ordinary frame in front of the sealed one is not read back (harness or rlpx defect): %s", desc)
+		verdict = "early-error"
+	case got[1].pn != nil:
+		verdict = "panic"
+		c.Fail("C15 frame class=panic ReadMsg panicked (%s) on a %s", firstLine(fmt.Sprint(got[1].pn)), desc)
+	case got[1].err == nil && !wf:
+		verdict = "delivered-malformed"
+		c.Fail("C15 frame class=delivered-malformed ReadMsg delivered message code %d (%d payload bytes) from a content that does not start "+
+			"with an RLP unsigned integer: %s", got[1].code, len(got[1].payload), desc)
+	case got[1].err == nil && (got[1].code != wantCode || !bytes.Equal(got[1].payload, wantRest)):
+		verdict = "delivered-wrong"
+		c.Fail("C15 frame class=delivered-wrong ReadMsg delivered code %d payload %x, the content says code %d payload %x: %s", got[1].code,
+			got[1].payload, wantCode, wantRest, desc)
+	case got[1].err == nil:
+		verdict = "delivered"
+		// the reader stays in step: the ordinary frame behind it is read back
+		if len(got) < 3 || got[2].err != nil || got[2].pn != nil || got[2].code != 7 || !bytes.Equal(got[2].payload, []byte("ordinary")) {
+			c.Fail("C15 frame class=out-of-step the frame behind a delivered sealed frame is not read back: %s", desc)
+			verdict = "out-of-step"
+		}
+	}
+	c.Hit("sealed-verdict-" + verdict)
+	c.Emit("frame sealed-%s %d | %s", sc.label, len(sc.payload), verdict)
+}
+
 func init() {
 	register("frame", func(c *Ctx) {
+		// ---- re-sealed family (directed, on every run): frames whose header MAC and frame MAC are correct around every shape of
+		//      the inner content — what a remote peer that completed the handshake can send
+		{
+			seed := []byte("zvh-frame-sealed")
+			// the sealer is faithful: an ordinary message sealed by it is byte-identical to what WriteMsg produces
+			pay := []byte("payload-of-an-ordinary-message")
+			wire, _ := encodeFrames(seed, [][2]interface{}{{uint64(5), pay}, {uint64(300), []byte{}}})
+			fs := newFrameSealer(seed)
+			fs.frame(append(mustRlp(uint64(5)), pay...), nil, 0)
+			fs.frame(mustRlp(uint64(300)), nil, 0)
+			if !bytes.Equal(wire, fs.buf.Bytes()) {
+				c.Fail("C15 frame: harness defect — the frame sealer does not reproduce WriteMsg's bytes")
+			}
+			for _, sc := range frameSweepContents() {
+				frameSealedCase(c, seed, sc, nil, 0)
+			}
+		}
 		for i := 0; i < c.N; i++ {
 			seed := make([]byte, 16)
 			c.R.Read(seed)
+			if c.R.Intn(4) == 0 {
+				// random member of the re-sealed family: random short contents, or a valid code + payload with an arbitrary header
+				// tail and non-zero padding
+				var sc sealedCase
+				var rest []byte
+				pad := byte(0)
+				switch c.R.Intn(3) {
+				case 0:
+					p := make([]byte, c.R.Intn(12))
+					c.R.Read(p)
+					sc = sealedCase{"r-short", p}
+				case 1:
+					p := make([]byte, c.R.Intn(70))
+					c.R.Read(p)
+					sc = sealedCase{"r-random", p}
+				default:
+					p := make([]byte, c.R.Intn(50))
+					c.R.Read(p)
+					sc = sealedCase{"r-header-tail", append(mustRlp(c.R.Uint64()>>uint(c.R.Intn(64))), p...)}
+					rest = make([]byte, 13)
+					c.R.Read(rest)
+					pad = byte(c.R.Intn(256))
+				}
+				frameSealedCase(c, seed, sc, rest, pad)
+				continue
+			}
 			nm := 1 + c.R.Intn(3)
 			var msgs [][2]interface{}
 			for j := 0; j < nm; j++ {
@@ -224,6 +307,8 @@ func init() {
 	})
 
 	register("disc", func(c *Ctx) {
+		muteStdout()
+		silence() // the live discovery node logs every datagram
 		var keys []*ecdsa.PrivateKey
 		for i := 0; i < 4; i++ {
 			k, err := crypto.GenerateKey()
@@ -233,8 +318,69 @@ func init() {
 			keys = append(keys, k)
 		}
 		future := uint64(time.Now().Add(time.Hour).Unix())
+
+		// ---- re-sealed family: inner payload mutated FIRST, hash and signature computed afterwards with the sender's own key.
+		//      Codec under recover + a live node on a loopback socket that must keep answering an honest ping.
+		live, lerr := newDiscLive()
+		if lerr != nil || !live.pingPong(live.sock, live.honest, false) {
+			// no loopback UDP in this environment: the codec part still runs
+			c.Hit("live-node-unavailable")
+			if live != nil {
+				live.close()
+			}
+			live = nil
+		} else {
+			defer live.close()
+			c.Hit("live-node-up")
+		}
+		{
+			// the sealer is faithful: sealing the payload of an encodePacket packet gives the same datagram
+			pkt, err := discover.EncodePacketVerif(keys[0], 1, future, 0)
+			if err != nil || !bytes.Equal(sealPacket(keys[0], pkt[discover.HeadSizeVerif:]), pkt) {
+				c.Fail("C15 disc: harness defect — sealPacket does not reproduce encodePacket's bytes (%v)", err)
+			}
+		}
+		sealedAlive := true
+		runSweep := func(priv *ecdsa.PrivateKey, viaBond bool) {
+			id := discover.PubkeyID(&priv.PublicKey)
+			last := ""
+			for i, sc := range discSweep(id, future) {
+				if !sealedAlive {
+					return
+				}
+				discSealed(c, priv, sc, live, viaBond)
+				last = sc.label
+				if i%500 == 499 {
+					sealedAlive = discLiveCheck(c, live, last)
+				}
+			}
+			sealedAlive = sealedAlive && discLiveCheck(c, live, last)
+		}
+		runSweep(keys[0], false)
+		if live != nil && sealedAlive {
+			// a peer that completes the bond (answers the node's ping): its findnode requests reach the table code
+			if live.pingPong(live.bondSock, live.bondKey, true) {
+				c.Hit("live-bonded-peer")
+				runSweep(live.bondKey, true)
+			} else {
+				c.Hit("live-bond-failed")
+			}
+		}
+
 		for i := 0; i < c.N; i++ {
 			priv := keys[c.R.Intn(len(keys))]
+			if sealedAlive && c.R.Intn(3) == 0 {
+				viaBond := live != nil && c.R.Intn(3) == 0
+				if viaBond {
+					priv = live.bondKey
+				}
+				sc := discRandomSealed(c, discover.PubkeyID(&priv.PublicKey), future)
+				discSealed(c, priv, sc, live, viaBond)
+				if i%700 == 699 || i == c.N-1 {
+					sealedAlive = discLiveCheck(c, live, sc.label)
+				}
+				continue
+			}
 			kind := byte(1 + c.R.Intn(4))
 			exp := []uint64{future, 0, 1, 1<<63 - 1, 1 << 63, 1<<64 - 1}[c.R.Intn(6)]
 			pkt, err := discover.EncodePacketVerif(priv, kind, exp, c.R.Intn(13))
